@@ -29,6 +29,8 @@ def utils_documents(max_leaves=12, min_leaves=1, wide=True):
                               gens.shaped_documents(leaves, keys, max_leaves=4, unique_keys=True)).map(
             lambda t: ["O", [[b"w", ["A", [t[1][i % len(t[1])] for i in range(t[0])]]], [b"d", t[2]]]]))
         docs.append(st.tuples(st.integers(28, 64), leaves).map(lambda t: ["A", [t[1] if i % 5 else ["A", [["N", float(i)]]] for i in range(t[0])]]))
+        # arrays long enough that every single byte, read as "byte - '0'", would alias an existing element (0xFF - 0x30 = 207)
+        docs.append(st.tuples(st.sampled_from([80, 130, 210, 260]), leaves).map(lambda t: ["O", [[b"v", ["A", [["N", float(i)] if i % 7 else t[1] for i in range(t[0])]]]]]))
     return st.one_of(*docs)
 
 
@@ -51,22 +53,31 @@ class C15(Prop):
     RULE = ("documents with distinct keys over an alphabet including '', '/', '~', '~0', '~1', '01', '-', digits, and arrays of up to 64 elements; "
             "pointer strings: (a) the true pointer of a drawn node, (b) that pointer with one edit (character replaced/inserted/deleted from "
             "{/ ~ 0-9 : A a - + space e .}, leading zero, ~0<->~1<->~2<->~, trailing '/', leading '/' removed, digits appended up to 2^64+k, "
-            "case flipped), (c) free strings over {/,~,0,1,digits,letters,-}. Oracle: GetPointerCaseSensitive returns exactly the node (by "
+            "case flipped), (c) free strings over {/,~,0,1,digits,letters,-}, (d) for arrays (up to 260 elements) EVERY single-byte token and a third of all digit+byte / byte+digit tokens, (e) single-child chains 998..3000 deep built through the API (lookup and construction at several depths). Oracle: GetPointerCaseSensitive returns exactly the node (by "
             "position) the RFC 6901 reference resolver designates, else NULL. For EVERY (root or inner container, node) pair of each "
             "document FindPointerFromObjectTo equals the reference-escaped pointer, resolves back to the node and is released with "
             "cJSON_free. non-trivial = (doc, pointer) with >= 2 tokens, an escape, or an array index >= 10; distinct by hash")
     ASSUMPTIONS = ["keys are distinct per object (first-match semantics under duplicates is not part of the statement)"]
     REQUIRED_CLASSES = ["valid", "invalid_index", "invalid_escape", "no_leading_slash", "empty_token_on_array", "index>=10", "huge_index",
-                        "construction_pairs", "missing_member", "dash", "case_flip", "ownership_flags_variant"]
+                        "construction_pairs", "missing_member", "dash", "case_flip", "ownership_flags_variant", "deep_chain", "single_byte_tokens"]
 
     def budget(self, tier):
         return {"workers": 12, "examples": 1200 if tier == "quick" else 30000}
 
     def strategy(self, tier):
+        deep = st.fixed_dictionaries({
+            "kind": st.just("deep"),
+            "depth": st.sampled_from([998, 999, 1000, 1001, 1002, 1500, 3000]),
+            "shape": st.sampled_from(["A", "O", "AO", "OA", "AAO"]),
+            "key": st.sampled_from([b"k", b"", b"a/b", b"~", b"0", b"m~n"]),
+        })
+        return st.one_of(*([self.doc_strategy()] * 30 + [deep]))
+
+    def doc_strategy(self):
         return st.fixed_dictionaries({
             "jv": utils_documents(),
             "node": st.integers(0, 10 ** 6),
-            "mode": st.sampled_from(["true", "edit", "edit", "edit", "free", "special"]),
+            "mode": st.sampled_from(["true", "edit", "edit", "edit", "free", "special", "special"]),
             "rseed": st.integers(0, 2 ** 31),
             "free": st.lists(st.sampled_from(list(b"/~01234567899aAbk-")), max_size=10).map(bytes),
         })
@@ -110,7 +121,54 @@ class C15(Prop):
             return b"/" + p
         return p + b"/" + rnd.choice([b"0", b"1", b"a", b"", b"~0", b"~1"])
 
+    def run_deep(self, lib, case, stats):
+        """single-child chains deeper than anything the parser produces (the construction API has no depth limit): lookup
+        is a loop, construction a recursion; both must work for every node that is in the tree"""
+        depth, shape, key = case["depth"], case["shape"], case["key"]
+        root = lib.cJSON_CreateArray() if shape[0] == "A" else lib.cJSON_CreateObject()
+        cur = root
+        toks = []
+        nodes = [root]
+        try:
+            for i in range(1, depth + 1):
+                kind = shape[i % len(shape)]
+                child = (lib.cJSON_CreateArray() if kind == "A" else lib.cJSON_CreateObject()) if i < depth else lib.cJSON_CreateNumber(7.0)
+                if shape[(i - 1) % len(shape)] == "A":
+                    lib.cJSON_AddItemToArray(cur, child)
+                    toks.append(b"0")
+                else:
+                    lib.cJSON_AddItemToObject(cur, key, child)
+                    toks.append(key)
+                cur = child
+                nodes.append(child)
+            stats.cls("deep_chain")
+            stats.nontriv(["deep", depth, shape, key], {"deep_chain_depth": depth, "shape": shape, "key": key})
+            for d in sorted(set([depth, depth - 1, depth // 2, 999, 1000, 1001, 1])):
+                if d > depth or d < 1:
+                    continue
+                want = rfc.ptr_build(toks[:d])
+                got_ptr = lib.cJSONUtils_GetPointerCaseSensitive(root, want)
+                stats.inner += 2
+                if got_ptr != nodes[d]:
+                    raise Violation("GetPointerCaseSensitive does not find the node %d levels down a %d-deep chain" % (d, depth), key="deep-lookup")
+                raw = lib.cJSONUtils_FindPointerFromObjectTo(root, nodes[d])
+                if not raw:
+                    raise Violation("FindPointerFromObjectTo returned NULL for the node %d levels down a %d-deep chain" % (d, depth), key="deep-construct-null")
+                got = ctypes.string_at(raw)
+                lib.cJSON_free(raw)
+                if got != want:
+                    raise Violation("FindPointerFromObjectTo gives a wrong pointer for the node %d levels down (%d vs %d bytes)" % (d, len(got), len(want)), key="deep-construct-text")
+            over = rfc.ptr_build(toks + [b"0"])
+            if lib.cJSONUtils_GetPointerCaseSensitive(root, over):
+                raise Violation("a pointer one token longer than the chain resolved to a node", key="deep-over")
+        finally:
+            lib.cJSON_Delete(root)
+        if lib.ledger_live() != 0:
+            raise Violation("pointer functions left allocations behind", key="leak")
+
     def run_case(self, lib, case, stats):
+        if case.get("kind") == "deep":
+            return self.run_deep(lib, case, stats)
         jv = case["jv"]
         rnd = random.Random(case["rseed"])
         arena = printing.Arena(lib)
@@ -133,7 +191,8 @@ class C15(Prop):
             else:
                 arrs = [p for p in paths if rfc.node_at(jv, p)[0] == "A"]
                 cands = [b"abc", b"a", b"0", b"/", true_ptr + b"/", b"//", b"~", b"/~", b"/~2", b"-", b"/-"]
-                for ap in arrs[:3]:
+                arrs.sort(key=lambda ap: -len(rfc.node_at(jv, ap)[1]))
+                for ap in arrs[:2]:
                     base = rfc.pointer_of(jv, ap)
                     n = len(rfc.node_at(jv, ap)[1])
                     cands += [base + b"/", base + b"/-", base + b"/%d" % n, base + b"/%d" % (n - 1) if n else base + b"/0", base + b"/1A", base + b"/01",
@@ -141,6 +200,13 @@ class C15(Prop):
                               base + b"/18446744073709551617", base + b"/1/", base + b"/00", base + b"/-0", base + b"/2A", base + b"/1a"]
                     cands += [base + b"/%d" % (h + k) for h in (2 ** 31, 2 ** 32, 2 ** 63, 2 ** 64) for k in (0, 1)]
                     cands += [base + b"/%d/0" % (2 ** 32 + 1), base + b"/%d/a" % (2 ** 32)]
+                    if ap is not arrs[0]:
+                        continue
+                    # EVERY single-byte token, and digit+byte / byte+digit tokens (largest array only)
+                    cands += [base + b"/" + bytes([c]) for c in range(1, 256)]
+                    cands += [base + b"/" + bytes([d, c]) for d in (0x30, 0x31, 0x39) for c in range(1, 256, 3)]
+                    cands += [base + b"/" + bytes([c, d]) for d in (0x30, 0x31) for c in range(2, 256, 3)]
+                    stats.cls("single_byte_tokens")
             for p in cands:
                 if b"\x00" in p:
                     continue
